@@ -111,6 +111,27 @@ def makeParameter : JParam → Option Param
       | none => none).map .y
   | .obj => none
 
+/-- one item after the SQL text of a parameterised statement: a positional value, or a JSON object
+whose members are named parameters -/
+inductive Arg where
+  | pos (j : JParam)
+  | named (members : List (String × JParam))
+deriving Repr
+
+/-- the parameter loop of `ParseRequest`: `(name, value)` per parameter, `""` for positional ones;
+`none` = the request is rejected. (Go iterates a map: the order of the members of one object is not
+defined; SQLite binds named parameters by name.) -/
+def parseArgs : List Arg → Option (List (String × Param))
+  | [] => some []
+  | .pos j :: rest => do
+    let p ← makeParameter j
+    let ps ← parseArgs rest
+    pure (("", p) :: ps)
+  | .named ms :: rest => do
+    let here ← ms.mapM fun (kv : String × JParam) => (makeParameter kv.2).map fun p => (kv.1, p)
+    let ps ← parseArgs rest
+    pure (here ++ ps)
+
 /-! ### SQLite side -/
 
 /-- a value as SQLite holds it (storage class + content) -/
@@ -197,6 +218,11 @@ def encode (blobArray : Bool) : Param → Option JOut
 /-- the whole read path -/
 def readback (decl : Decl) (textTyped blobArray : Bool) (v : SqlVal) : Option JOut :=
   encode blobArray (normalize textTyped (drv decl v))
+
+/-- `NewAssociativeRowsFromQueryRows`: `m[c] = values[i][ii]` for each column in turn - a Go map,
+so for a repeated column name the LAST value wins. The value the associative row holds for `c`: -/
+def assocGet (cols : List String) (vals : List JOut) (c : String) : Option JOut :=
+  ((cols.zip vals).reverse.find? fun kv => kv.1 == c).map (·.2)
 
 /-! ### line protocol
 `param <jparam>` → `<param>` | `error`
